@@ -191,7 +191,9 @@ class Scheduler:
         for p in ("intVal", "text", "flag", "peer", "model", "count", "title", "mid1", "midText", "midPeer"):
             if self.r.chance(0.15):
                 self.always[p] = True
+                self.w.always[p] = True
                 lines.append("ALWAYS %s 1" % p)
+                ops.append(["always", p, True])
         # setup(): bindings become live
         self.w.active = True
         self.w.recompute()
@@ -221,13 +223,18 @@ class Scheduler:
         pd = sc.find_prop(cls, p)
         key = notify_key(cls, p)
         args = [gen.tok(self.w.props[o][p], ty)] if pd["notify"][1] else []
-        line = "EMIT %s %s %s" % (o, key, " ".join(args))
-        lines = [line.rstrip()]
+        line = ("EMIT %s %s %s" % (o, key, " ".join(args))).rstrip()
+        lines = [line]
+        ops = [["emit", o, key, args]]
+        self.w.emit(o, key, [gen.untok(a) for a in args])     # a handler on the notify signal runs
         if self.r.chance(0.3):
-            lines.append(line.rstrip())   # duplicate notification
+            lines.append(line)   # duplicate notification
+            ops.append(["emit", o, key, args])
+            self.w.emit(o, key, [gen.untok(a) for a in args])
         if p == "text" and self.r.chance(0.5):
             lines.append("EMIT %s textChanged()" % o)
-        return "NOTIFY_SPURIOUS", lines, [["noop"]]
+            ops.append(["emit", o, "textChanged()", []])
+        return "NOTIFY_SPURIOUS", lines, ops
 
     def ev_repoint(self):
         cands = [(o, p, t) for o in self.objects_with_sources() for p, t in self.ptr_props(o)]
@@ -380,7 +387,8 @@ class Scheduler:
         p = self.r.choice(["intVal", "text", "flag", "peer", "model", "count", "title", "mid1", "midText", "midPeer", "uintVal", "items"])
         on = not self.always.get(p, False)
         self.always[p] = on
-        return "ALWAYS_EMIT", ["ALWAYS %s %d" % (p, 1 if on else 0)], [["noop"]]
+        self.w.always[p] = on
+        return "ALWAYS_EMIT", ["ALWAYS %s %d" % (p, 1 if on else 0)], [["always", p, on]]
 
     def history(self, n_events):
         """-> list of groups {"kind", "lines", "ops"}; one observation follows each group"""
@@ -438,9 +446,11 @@ def apply_op(w, op, mapping):
         v = gen.untok(op[3])
         if isinstance(v, str) and op[3].startswith("o:"):
             v = mapping.get(v, v)
-        w.trace = []
         w.set_source(o, op[2], v)
-        return []
+        return w.trace
+    if k == "always":
+        w.always[op[1]] = bool(op[2])
+        return w.trace
     if k == "new":
         w.add_object(op[1], op[2])
         return []
@@ -527,3 +537,11 @@ def handler_channel(lines, target_set):
         elif parts[0] in ("call", "log"):
             out.append(canon_line(ln))
     return out
+
+
+def apply_group(w, ops, mapping):
+    """replay one event group through the reference world -> its complete expected trace"""
+    w.trace = []
+    for op in ops:
+        apply_op(w, op, mapping)
+    return list(w.trace)
